@@ -24,6 +24,13 @@ var stdlibFS embed.FS
 type specFn struct {
 	F   *spec.SpecFunc
 	Pkg *types.Package
+	recKnown, rec bool
+}
+
+// axiomDecl is a file-level `axiom` (an assumption about uninterpreted specification functions).
+type axiomDecl struct {
+	C   *spec.Clause
+	Pkg *types.Package
 }
 
 // Contract is a parsed contract bound to its function.
@@ -54,6 +61,8 @@ type Prog struct {
 	needFloatAxioms bool
 	Lemmas map[string][]*LemmaDecl
 	Trusted map[string]bool // trusted/extern contracts actually used
+	DepContracts []string // dependency packages whose contracts were loaded (used as callee contracts only)
+	Axioms map[string][]*axiomDecl // by package path
 }
 
 type LoadConfig struct {
@@ -127,8 +136,25 @@ func Load(cfg LoadConfig) (*Prog, error) {
 			return nil, err
 		}
 	}
-	// contract files of the loaded packages
+	// contract files of the loaded packages and of the packages they depend on (the latter are
+	// only used as callee contracts here; they are discharged by the check of their own property)
+	var withContracts []*packages.Package
+	isRoot := map[string]bool{}
 	for _, pk := range pkgs {
+		isRoot[pk.PkgPath] = true
+	}
+	packages.Visit(pkgs, nil, func(pk *packages.Package) {
+		for _, gf := range pk.GoFiles {
+			if filepath.Base(gf) == "verif_contracts.go" {
+				withContracts = append(withContracts, pk)
+			}
+		}
+	})
+	sort.Slice(withContracts, func(i, j int) bool { return withContracts[i].PkgPath < withContracts[j].PkgPath })
+	for _, pk := range withContracts {
+		if !isRoot[pk.PkgPath] {
+			p.DepContracts = append(p.DepContracts, pk.PkgPath)
+		}
 		for _, gf := range pk.GoFiles {
 			if filepath.Base(gf) != "verif_contracts.go" {
 				continue
@@ -169,6 +195,27 @@ func (p *Prog) addFile(f *spec.File, pk *packages.Package) error {
 			return fmt.Errorf("%s: duplicate spec function %s", sf.Pos, sf.Name)
 		}
 		p.specFns[key] = &specFn{F: sf, Pkg: tp}
+	}
+	for _, name := range f.Owned {
+		if tp == nil {
+			return fmt.Errorf("%s: owned type %s outside of a package", f.Name, name)
+		}
+		o := tp.Scope().Lookup(name)
+		if o == nil {
+			return fmt.Errorf("%s: owned type %s not found in %s", f.Name, name, tp.Path())
+		}
+		p.T.DeclareOwned(o.Type())
+		p.Assumptions["owned type "+tp.Path()+"."+name+": incoming pointers to it are roots of disjoint tree-shaped structures (every function under contract is checked to re-establish this for what it returns or stores)"] = true
+	}
+	for _, ax := range f.Axioms {
+		path := ""
+		if tp != nil {
+			path = tp.Path()
+		}
+		if p.Axioms == nil {
+			p.Axioms = map[string][]*axiomDecl{}
+		}
+		p.Axioms[path] = append(p.Axioms[path], &axiomDecl{C: ax, Pkg: tp})
 	}
 	for _, l := range f.Lemmas {
 		path := ""
@@ -295,6 +342,14 @@ func (p *Prog) ContractOf(fn *ssa.Function) *Contract {
 	}
 	if c, ok := p.extern[FuncKey(fn)]; ok {
 		return c
+	}
+	return nil
+}
+
+// LookupSpecFunc is lookupSpecFunc for tools outside the package (replay generation).
+func (p *Prog) LookupSpecFunc(pkg *types.Package, name string) *spec.SpecFunc {
+	if sf := p.lookupSpecFunc(pkg, name); sf != nil {
+		return sf.F
 	}
 	return nil
 }
